@@ -477,6 +477,14 @@ func (k Keeper) MakeConsumerGenesis(
 			)
 		}
 
+		// a client can be the CCV client of at most one consumer chain
+		if existingConsumerId, found := k.GetClientIdToConsumerId(ctx, clientId); found && existingConsumerId != consumerId {
+			return gen, errorsmod.Wrapf(types.ErrInvalidConsumerClient,
+				"client(%s) of connection(%s) is already the CCV client of consumer chain %s",
+				clientId, initializationRecord.ConnectionId, existingConsumerId,
+			)
+		}
+
 		// set the counterparty connection ID
 		counterpartyConnectionId = connectionEnd.Counterparty.ConnectionId
 
